@@ -411,12 +411,44 @@ func c17FailClosed(c *Ctx, i int, r *gen.R) {
 			return
 		}
 	}
-	if _, err := tt.SetDecorationNamed(c17Builtins[i%len(c17Builtins)]); err != nil {
-		c.Rec.Violate("known-name-rejected", fmt.Sprintf("SetDecorationNamed(%q) failed: %v", c17Builtins[i%len(c17Builtins)], err), desc)
-		return
-	}
-	if out, rerr := tt.Render(); rerr != nil || out == "" {
-		c.Rec.Violate("does-not-recover", fmt.Sprintf("after setting a known decoration again Render returned %q, %v", out, rerr), desc)
+	// the same table goes on: known and unknown names (and explicit decorations) in any order; after
+	// every step the table renders iff the last thing set was a known decoration
+	var steps []string
+	for k := r.Range(3, 8); k > 0; k-- {
+		wantOK := true
+		switch r.Intn(4) {
+		case 0, 1:
+			known := c17Builtins[r.Intn(len(c17Builtins))]
+			steps = append(steps, fmt.Sprintf("SetDecorationNamed(%q) [known]", known))
+			if _, err := tt.SetDecorationNamed(known); err != nil {
+				desc["steps"] = steps
+				c.Rec.Violate("known-name-rejected", fmt.Sprintf("SetDecorationNamed(%q) failed: %v", known, err), desc)
+				return
+			}
+		case 2:
+			unk := fmt.Sprintf("%s-again-%d", name, k)
+			steps = append(steps, fmt.Sprintf("SetDecorationNamed(%q) [never registered]", unk))
+			if _, err := tt.SetDecorationNamed(unk); err == nil {
+				desc["steps"] = steps
+				c.Rec.Violate("unknown-name-accepted", fmt.Sprintf("SetDecorationNamed(%q) returned no error", unk), desc)
+				return
+			}
+			wantOK = false
+		case 3:
+			steps = append(steps, "SetDecoration(decoration.ASCIIBoxSimple())")
+			tt.SetDecoration(decoration.ASCIIBoxSimple())
+		}
+		desc["steps"] = steps
+		c.Rec.Count("fail_closed_probes", 1)
+		out, rerr := tt.Render()
+		if wantOK && (rerr != nil || out == "") {
+			c.Rec.Violate("does-not-recover", fmt.Sprintf("after %s Render returned %q, %v", steps[len(steps)-1], out, rerr), desc)
+			return
+		}
+		if !wantOK && (rerr == nil || out != "") {
+			c.Rec.Violate("renders-after-unknown-name:after-an-earlier-known-name", fmt.Sprintf("after %v the last name set is unknown, yet Render returned %q with error %v instead of refusing", steps, out, rerr), desc)
+			return
+		}
 	}
 }
 
@@ -447,7 +479,7 @@ func init() {
 		Race:   true,
 		Shards: raceShards,
 		Rule: "built with -race; shards run at GOMAXPROCS = all cores, 2, 4, 1. phase 0: concurrent histories of 2-8 clients x 2-8 operations (Register with a unique value per call / Named / RegisteredDecorationNames / render a text table by name, where the rule glyphs of the output name the registration that was observed) on 1-4 names of a fresh namespace, released by one barrier, followed (after all clients returned) by one lookup per name and one listing; every operation is recorded at the client boundary with call/return stamps from one atomic counter and the history is checked with porcupine against a sequential name->value map (listing = sorted key set); every listing is also checked for sortedness, duplicates and the six built-ins. " +
-			"phase 1: sequential histories of 3-30 operations compared directly with a Go map. phase 2: fail-closed probes (never-registered names and names registered to the empty decoration): SetDecorationNamed must return an error, Render/RenderTo must refuse with no output, a known name must recover. " +
+			"phase 1: sequential histories of 3-30 operations compared directly with a Go map. phase 2: fail-closed probes (never-registered names and names registered to the empty decoration): SetDecorationNamed must return an error, Render/RenderTo must refuse with no output; then 3-8 further steps on the same table (known names, further unknown names, explicit decorations) after each of which the table renders iff the last thing set was a known decoration. " +
 			"distinct_nontrivial counts distinct interleaving signatures (order of client ids by call stamp, together with the scripts); the race detector's log is parsed by the parent and every report with a tabular frame is a violation.",
 		Assumptions: []string{
 			"the race detector and the linearizability checker see only the interleavings that happened in this run",
